@@ -1,16 +1,165 @@
-//! Multitest worlds (cw-multi-test `App`s kept between commands).
+//! Multitest worlds: cw-multi-test `App`s kept between commands, and the *raw* side of the
+//! proxy-vs-raw equivalence monitor (C12): every operation is submitted as JSON bytes through
+//! cw-multi-test's own API, never through sylvia's generated helpers.
 
-use serde_json::Value;
+use cosmwasm_std::{Addr, Binary, Coin, CosmosMsg, CustomMsg, CustomQuery, Querier, QueryRequest, WasmQuery};
+use cw_multi_test::{BasicApp, Executor, SudoMsg, WasmSudo};
+use serde::de::DeserializeOwned;
+use serde_json::{json, Map, Value};
+use std::any::Any;
+use std::collections::HashMap;
+use std::fmt::Debug;
+
+pub type AppOf<M, Q> = sylvia::multitest::App<BasicApp<M, Q>>;
 
 #[derive(Default)]
 pub struct State {
-    pub basic: std::collections::HashMap<u64, sylvia::multitest::App<cw_multi_test::BasicApp>>,
-    pub custom: std::collections::HashMap<
-        u64,
-        sylvia::multitest::App<cw_multi_test::BasicApp<crate::MyMsg, crate::MyQuery>>,
-    >,
+    /// world id -> `&'static AppOf<M, Q>` (leaked on purpose: proxies and CodeIds borrow it)
+    pub apps: HashMap<u64, Box<dyn Any>>,
+    /// per-program objects that borrow an app (`CodeId`s), keyed by the glue
+    pub any: HashMap<String, Box<dyn Any>>,
 }
 
-pub fn call(_op: &str, _a: &Value, _st: &mut State) -> Option<Value> {
-    None
+impl State {
+    pub fn app<M: 'static, Q: 'static>(&self, a: &Value) -> &'static AppOf<M, Q> {
+        let id = a["world"].as_u64().expect("world");
+        self.apps
+            .get(&id)
+            .unwrap_or_else(|| panic!("HARNESS: no world {id}"))
+            .downcast_ref::<&'static AppOf<M, Q>>()
+            .expect("HARNESS: world has another custom type")
+    }
+}
+
+fn balances_of(a: &Value) -> Vec<(Addr, Vec<Coin>)> {
+    a["balances"]
+        .as_array()
+        .map(|l| {
+            l.iter()
+                .map(|e| (Addr::unchecked(e[0].as_str().unwrap()), serde_json::from_value(e[1].clone()).unwrap()))
+                .collect()
+        })
+        .unwrap_or_default()
+}
+
+pub fn app_response_json(r: &cw_multi_test::AppResponse) -> Value {
+    json!({"events": serde_json::to_value(&r.events).unwrap(), "data": r.data.as_ref().map(|d| d.to_base64())})
+}
+
+pub fn ok(v: Value) -> Value {
+    json!({"res": {"ok": v}})
+}
+pub fn err_anyhow(e: anyhow::Error) -> Value {
+    let mut d = crate::errs::describe_anyhow(&e);
+    d["display"] = Value::String(format!("{e:#}"));
+    d["root"] = Value::String(e.root_cause().to_string());
+    json!({"res": {"err": d}})
+}
+pub fn err_described<E: crate::DescribeErr + std::fmt::Display>(e: E) -> Value {
+    let mut d = e.describe();
+    d["display"] = Value::String(e.to_string());
+    json!({"res": {"err": d}})
+}
+
+fn raw_op<ExecC, QueryC>(app: &sylvia::multitest::App<BasicApp<ExecC, QueryC>>, op: &str, a: &Value) -> Option<Value>
+where
+    ExecC: sylvia::types::CustomMsg + Debug + 'static,
+    QueryC: sylvia::types::CustomQuery + Debug + 'static,
+{
+    crate::set_plan(crate::plan_from_json(a.get("plan").unwrap_or(&Value::Null)));
+    Some(match op {
+        "raw:execute" => {
+            let sender = Addr::unchecked(a["sender"].as_str().unwrap());
+            let msg: CosmosMsg<ExecC> = serde_json::from_value(a["msg"].clone()).expect("cosmos msg");
+            match app.app_mut().execute(sender, msg) {
+                Ok(r) => ok(app_response_json(&r)),
+                Err(e) => err_anyhow(e),
+            }
+        }
+        "raw:sudo" => {
+            let m = WasmSudo {
+                contract_addr: Addr::unchecked(a["addr"].as_str().unwrap()),
+                message: Binary::from(a["doc"].as_str().unwrap().as_bytes()),
+            };
+            match app.app_mut().sudo(SudoMsg::Wasm(m)) {
+                Ok(r) => ok(app_response_json(&r)),
+                Err(e) => err_anyhow(e),
+            }
+        }
+        "raw:query" => {
+            let req: QueryRequest<QueryC> = QueryRequest::Wasm(WasmQuery::Smart {
+                contract_addr: a["addr"].as_str().unwrap().to_owned(),
+                msg: Binary::from(a["doc"].as_str().unwrap().as_bytes()),
+            });
+            let bytes = cosmwasm_std::to_json_vec(&req).unwrap();
+            match app.raw_query(&bytes) {
+                cosmwasm_std::SystemResult::Ok(cosmwasm_std::ContractResult::Ok(b)) => ok(json!({"text": String::from_utf8_lossy(b.as_slice())})),
+                cosmwasm_std::SystemResult::Ok(cosmwasm_std::ContractResult::Err(e)) => json!({"res": {"err": {"ty": "querier", "display": e}}}),
+                cosmwasm_std::SystemResult::Err(e) => json!({"res": {"err": {"ty": "system", "display": e.to_string()}}}),
+            }
+        }
+        "state" => {
+            let inner = app.app();
+            let mut contracts = Map::new();
+            for c in a["contracts"].as_array().cloned().unwrap_or_default() {
+                let addr = Addr::unchecked(c.as_str().unwrap());
+                let dump: Vec<Value> = inner
+                    .dump_wasm_raw(&addr)
+                    .into_iter()
+                    .map(|(k, v)| json!([String::from_utf8_lossy(&k), String::from_utf8_lossy(&v)]))
+                    .collect();
+                let data = match inner.contract_data(&addr) {
+                    Ok(d) => json!({"code_id": d.code_id, "creator": d.creator, "admin": d.admin, "label": d.label}),
+                    Err(e) => json!({"err": e.to_string()}),
+                };
+                contracts.insert(addr.to_string(), json!({"storage": dump, "data": data}));
+            }
+            let mut balances = Map::new();
+            for c in a["accounts"].as_array().cloned().unwrap_or_default() {
+                let addr = c.as_str().unwrap();
+                #[allow(deprecated)]
+                let b = inner.wrap().query_all_balances(addr).map(|v| serde_json::to_value(v).unwrap()).unwrap_or(Value::Null);
+                balances.insert(addr.to_owned(), b);
+            }
+            ok(json!({"contracts": contracts, "balances": balances, "block": serde_json::to_value(inner.block_info()).unwrap()}))
+        }
+        _ => return None,
+    })
+}
+
+fn new_app<M, Q>(a: &Value, st: &mut State)
+where
+    M: sylvia::types::CustomMsg + Debug + 'static,
+    Q: sylvia::types::CustomQuery + Debug + 'static,
+{
+    let id = a["world"].as_u64().expect("world");
+    let bal = balances_of(a);
+    let app: AppOf<M, Q> = sylvia::multitest::App::custom(|router, _api, storage| {
+        for (addr, coins) in &bal {
+            router.bank.init_balance(storage, addr, coins.clone()).unwrap();
+        }
+    });
+    let leaked: &'static AppOf<M, Q> = Box::leak(Box::new(app));
+    st.apps.insert(id, Box::new(leaked));
+}
+
+pub fn call(op: &str, a: &Value, st: &mut State) -> Option<Value> {
+    use cosmwasm_std::Empty;
+    let m = a["m"].as_bool().unwrap_or(false);
+    let q = a["q"].as_bool().unwrap_or(false);
+    if op == "new" {
+        match (m, q) {
+            (false, false) => new_app::<Empty, Empty>(a, st),
+            (true, false) => new_app::<crate::MyMsg, Empty>(a, st),
+            (false, true) => new_app::<Empty, crate::MyQuery>(a, st),
+            (true, true) => new_app::<crate::MyMsg, crate::MyQuery>(a, st),
+        }
+        return Some(ok(Value::Null));
+    }
+    match (m, q) {
+        (false, false) => raw_op(st.app::<Empty, Empty>(a), op, a),
+        (true, false) => raw_op(st.app::<crate::MyMsg, Empty>(a), op, a),
+        (false, true) => raw_op(st.app::<Empty, crate::MyQuery>(a), op, a),
+        (true, true) => raw_op(st.app::<crate::MyMsg, crate::MyQuery>(a), op, a),
+    }
 }
